@@ -205,8 +205,11 @@ class Program:
         self.enums = {}
         self.hidden = set()
 
-    def enum(self, name, values, signed=False, bits=None):
+    def enum(self, name, values, signed=False, bits=None, case=None):
+        # case: render hint `[(cpp) enum_case: ...]` - the C++ spelling of the enumerators; the text format keeps the Emboss names
         self.enums[name] = {"values": [{"name": n, "v": v} for n, v in values], "signed": signed, "bits": bits}
+        if case:
+            self.enums[name]["case"] = case
         return self
 
     def struct(self, name, params=(), default_order=None, requires=None):
@@ -369,6 +372,8 @@ def render(prog, namespace=None):
             lines.append("  [is_signed: true]")
         if ed.get("bits"):
             lines.append("  [maximum_bits: %d]" % ed["bits"])
+        if ed.get("case"):
+            lines.append('  [(cpp) $default enum_case: "%s"]' % ed["case"])
         for v in ed["values"]:
             lines.append("  %s = %d" % (v["name"], v["v"]))
         lines.append("")
